@@ -132,7 +132,7 @@ func VerifH_payload() {
 // The same contract on concrete header texts: every entry is a choice among representative
 // strings, so that HasPrefix / TrimPrefix / ParseInt are evaluated with their real semantics and
 // a counterexample replays natively as is.  The expected meaning of each text is tabulated here.
-const vNEntries = 15
+const vNEntries = 19
 
 type vEntry struct {
 	s      string
@@ -144,10 +144,11 @@ func vEntryChoice(tag string) vEntry {
 	i := verifInt(tag)
 	verifAssume(i >= 0 && i < vNEntries)
 	texts := []string{"gfet4t7; dur=45", "gfet4t7; dur=123", "gfet4t7; dur=7", "gfet4t7; dur=0", "gfet4t7; dur=", "gfet4t7; dur=x1", "gfet4t7; dur= 12",
-		"gfet4t7; dur=dur=5", "gfet4t7; dur=-3", "gfet4t7; dur=47", "other; dur=9", "", "gfet4t7", "xgfet4t7; dur=8", "gfet4t7; dur=99999999999999999999"}
-	is := []bool{true, true, true, true, true, true, true, true, true, true, false, false, false, false, true}
-	wf := []bool{true, true, true, true, false, false, false, false, true, true, false, false, false, false, false}
-	ms := []int64{45, 123, 7, 0, 0, 0, 0, 0, -3, 47, 0, 0, 0, 0, 0}
+		"gfet4t7; dur=dur=5", "gfet4t7; dur=-3", "gfet4t7; dur=47", "other; dur=9", "", "gfet4t7", "xgfet4t7; dur=8", "gfet4t7; dur=99999999999999999999",
+		"gfet4t7; dur=010", "gfet4t7; dur=08", "gfet4t7; dur=0x10", "gfet4t7; dur=1_000"} // decimal only: leading zeros are decimal, base prefixes and underscores malformed
+	is := []bool{true, true, true, true, true, true, true, true, true, true, false, false, false, false, true, true, true, true, true}
+	wf := []bool{true, true, true, true, false, false, false, false, true, true, false, false, false, false, false, true, true, false, false}
+	ms := []int64{45, 123, 7, 0, 0, 0, 0, 0, -3, 47, 0, 0, 0, 0, 0, 10, 8, 0, 0}
 	return vEntry{s: texts[i], is: is[i], wf: wf[i], ms: ms[i]}
 }
 
